@@ -1,6 +1,7 @@
 """C17 — radii lookups: translators, correspondence of Model/Radii.v with qcelemental.covalentradii / vdwradii
 (get, the constructed tables, Datum.to_units), and the property oracle evaluated directly on the implementation."""
 import math
+import time
 from decimal import Decimal
 from fractions import Fraction
 
@@ -9,7 +10,7 @@ import numpy as np
 from .. import coqrun
 from ..core import Corr
 from ..coqrun import cstr, clist, cbool, cq
-from ..translate import ptable, srd144, periodgroup, radii, codata, radiiglue
+from ..translate import ptable, srd144, periodgroup, radii, codata, radiiglue, radiiinit
 from . import c01
 
 PID = "C17"
@@ -24,8 +25,11 @@ TRUSTED = [
     "translator harness/translate/radiiglue.py (the bodies of CovalentRadii.get, VanderWaalsRadii.get and Datum.to_units -> Gen/RadiiGlue.v) and the "
     "combinators of coq/Model/RadiiGlue.v + Model/PeriodicTableGlue.v as the meaning of the Python constructs used; the hand-written [get] of "
     "coq/Model/Radii.v is PROVED equal to both generated get methods (C17_generated_get_is_model)",
-    "hand-written model coq/Model/Radii.v of CovalentRadii/VanderWaalsRadii.__init__ (table construction) on top of the C01 "
-    "periodic-table model; tied by differential execution of the constructed dictionaries entry by entry (this file)",
+    "translator harness/translate/radiiinit.py (the table construction of CovalentRadii.__init__ / VanderWaalsRadii.__init__: empty ordered dict, "
+    "the context guard, the row loop and the alias loop with which component goes into which Datum slot -> Gen/RadiiInit.v) and the combinators of "
+    "coq/Model/RadiiInit.v (`d[k] = v` as dict_set) as the meaning of those constructs; the hand-written tables cov_table / vdw_table of "
+    "coq/Model/Radii.v are PROVED lookup-equal to the generated ones (C17_generated_init_is_model) and additionally tied by differential execution of "
+    "the constructed dictionaries entry by entry (this file)",
     "default unit (Bohr): the factor is DERIVED in the model: 1 / bohr2angstroms, bohr2angstroms = the alias expression of context.py "
     "(Gen/Aliases.v) over the shipped CODATA table of the default context (Gen/Codata2014.v / 2018; default year translated from context.py); "
     "trusted there: that pint defines bohr as <'bohr radius' value> metre and angstrom as 1e-10 metre (read in ureg.py, not translated)",
@@ -34,6 +38,10 @@ TRUSTED = [
     "float arithmetic: the model is exact (Q); the implementation's factor*float(data) is compared to it within 2^-51 relative (two roundings) and, "
     "in the oracle, bit-exactly against the same IEEE product recomputed from the source string",
     "pydantic Datum construction/validation is not modelled beyond the four fields label, units, data, comment",
+    "Datum.to_units on ARRAY payloads is outside the Gallina model: judged by the Python oracle alone (exact rational product element by element "
+    "within 2^-51 / 2^-22 relative for 8- / 4-byte results — at most two roundings of 2^-53 / 2^-24 each, margin >= 2 —, result type, bit-exact IEEE "
+    "product recomputed with numpy, repeatability, payload untouched and unshared); numpy's promotion of integer/boolean arrays to float64 and "
+    "its keeping float32 / complex64 under multiplication by a Python float is pinned behaviour",
 ]
 ASSUMPTIONS = [
     "identifiers are Python int (not bool) or ASCII str; units are length units known to the registry",
@@ -50,6 +58,7 @@ def translate(ctx):
     srd144.generate(ctx.repo)
     periodgroup.generate(ctx.repo)
     radii.generate(ctx.repo)
+    radiiinit.generate(ctx.repo)  # Gen/RadiiInit.v: the table construction of both __init__ methods as translated from the source
     radiiglue.generate(ctx.repo)  # Gen/RadiiGlue.v: both get methods and Datum.to_units as translated from the source
     codata.generate(ctx.repo)     # Gen/Codata2014.v, Codata2018.v, Aliases.v (shared with C02/C03): the Bohr radius and the alias expression
 
@@ -120,7 +129,8 @@ def dec_tuple(d):
 # ------------------------------------------------------------------------------------------------
 class RSpec:
     """What the source tables say, independent of the constructor code: per table, label -> (value string, comment);
-    bare C/Mn/Fe/Co = the largest of their variants."""
+    a bare element that has special-label variants  E_xxx  in the source table means the LARGEST of them (whatever the
+    constructor's aliases literal says, and whether or not the source table also carries a row for the bare symbol)."""
 
     def __init__(self, repo):
         d = radii.load(repo)
@@ -130,32 +140,57 @@ class RSpec:
             self.rows[True][l] = (v, c)
         for l, v in d["vdw"]["rows"]:
             self.rows[False][l] = (v, "")
-        self.generic = {}
-        for idn, u, src, c in d["aliases"]:
-            variants = [(Decimal(v), l) for l, (v, _) in self.rows[True].items() if l.startswith(idn + "_")]
-            self.generic[idn] = max(variants)[1] if variants else None
-        self.aliases = d["aliases"]
         self.pt = c01.Spec(repo)
+        self.variants = {True: {}, False: {}}    # per table: element symbol -> its special labels E_xxx of the source table
+        for cov in (True, False):
+            for l in self.rows[cov]:
+                e = l.split("_", 1)[0]
+                if "_" in l and e in self.pt.E:
+                    self.variants[cov].setdefault(e, []).append(l)
+        # the variant carrying the largest value (ties: the same value, any of them)
+        self.generic = {cov: {e: max(ls, key=lambda l: (Decimal(self.rows[cov][l][0]), l)) for e, ls in self.variants[cov].items()}
+                        for cov in (True, False)}
+        self.aliases = d["aliases"]
 
     def expect(self, cov, x):
         """('notanelement',) | ('nodata', E) | ('entry', key, label, value string, comment or None)"""
-        rows = self.rows[cov]
+        rows, generic = self.rows[cov], self.generic[cov]
+        if isinstance(x, str) and x in generic:
+            return ("entry", x, x, rows[generic[x]][0], None)
         if isinstance(x, str) and x in rows:
             v, c = rows[x]
             return ("entry", x, x, v, c)
-        if isinstance(x, str) and cov and x in self.generic and self.generic[x]:
-            src = self.generic[x]
-            return ("entry", x, x, rows[src][0], None)
         e = self.pt.expect(x)
         if e is None:
             return ("notanelement",)
         E = e[1]["E"]
+        if E in generic:
+            return ("entry", E, E, rows[generic[E]][0], None)
         if E in rows:
             v, c = rows[E]
             return ("entry", E, E, v, c)
-        if cov and E in self.generic and self.generic[E]:
-            return ("entry", E, E, rows[self.generic[E]][0], None)
         return ("nodata", E)
+
+
+def variant_relation(rs, cov, key, rt, units, out):
+    """'the bare element means the largest variant', on the IMPLEMENTATION's answers alone: the answer for an element that has
+    special labels E_xxx must be the largest of the answers for those labels (same return form and unit)."""
+    labels = rs.variants[cov].get(key)
+    if not labels or out[0] != "Ok":
+        return None
+    vals = {}
+    for l in labels:
+        o = impl_get(cov, l, None, rt, units)
+        if o[0] != "Ok":
+            return f"special label {l}: raised {o[1]}"
+        vals[l] = o[1].data if rt else o[1]
+    try:
+        big = max(vals.values())
+        mine = out[1].data if rt else out[1]
+        ok = (mine == big)
+    except Exception as e:  # noqa: BLE001
+        return f"bare {key} / its variants are not comparable: {e!r}"
+    return None if ok else f"bare {key} gives {mine!r}, but the largest of its variants {vals!r} is {big!r}"
 
 
 def oracle(rs, cov, x, missing, rt, units, out):
@@ -175,7 +210,7 @@ def oracle(rs, cov, x, missing, rt, units, out):
     if rt:
         ok = (type(r).__name__ == "Datum" and r.label == label and r.units == native and isinstance(r.data, Decimal)
               and r.data.as_tuple() == Decimal(vstr).as_tuple() and (comment is None or r.comment == comment))
-        return None if ok else f"Datum form is not (label {label}, {native}, Decimal({vstr})): {r!r}"
+        return variant_relation(rs, cov, key, rt, units, out) if ok else f"Datum form is not (label {label}, {native}, Decimal({vstr})): {r!r}"
     if missing is not None and r is missing:
         return f"tabulated radius {key}: returned the fallback"
     f = factor(native, units)
@@ -184,7 +219,7 @@ def oracle(rs, cov, x, missing, rt, units, out):
         return f"value {r!r} is not factor({native}->{units})={f!r} times tabulated {vstr} (= {want!r})"
     if units == native and r.hex() != float(vstr).hex():
         return f"native unit does not return the tabulated number exactly: {r!r} vs {vstr}"
-    return None
+    return variant_relation(rs, cov, key, rt, units, out)
 
 
 def factor_sanity():
@@ -345,7 +380,9 @@ def correspond(ctx):
                  "missing {None, float} x return_tuple, for both radius sets; HISTORY streams (colliding identifiers incl. float history-makers in both "
                  "orders before anything else, then after float/int/string history-makers the invalid stream and a shuffled sample of earlier calls "
                  "re-issued, judged by the oracle and compared with the first answer); the constructed dictionaries entry by entry; Datum.to_units "
-                 "over unit pairs and float/Decimal/array payloads. non-trivial = the call returned a radius (number or Datum); distinct = distinct calls")
+                 "over unit pairs and float/Decimal payloads and array payloads of every numeric dtype (bool, int8..uint64, big-endian, float32/64, "
+                 "complex64/128) x {0-d, 1-d, 2-d, empty, Fortran, strided, transposed, read-only}; bare element = largest variant also on the implementation's "
+                 "own answers. non-trivial = the call returned a radius (number or Datum); distinct = distinct calls")
     try:
         rs = RSpec(ctx.repo)
     except Exception as e:
@@ -582,6 +619,26 @@ def correspond(ctx):
         if not (isinstance(r0, np.ndarray) and np.array_equal(r0, arr)):
             corr.failures.append({"stream": "oracle", "case": {"kind": "to_units", "from": a, "to": None, "payload": arr.tolist()},
                                   "what": "to_units() without target changed the data", "observed": repr(r0)})
+    # array payloads of every numeric dtype / shape / memory layout (outside the Gallina model; oracle only)
+    t0 = time.time()
+    descs = array_payloads(ctx.rng)
+    nfa, afail = 0, []
+    for j, (a, b) in enumerate(units_pairs):
+        # every (dtype, layout) with the length-unit pairs that change the unit; a rotating fifth of them with the others
+        for i, desc in enumerate(descs):
+            if not (ctx.thorough or (a != b and a in UNITS) or (i + j) % 5 == 0):
+                continue
+            corr.count("to_units-arrays")
+            corr.hit("array_payload_kind_" + np.dtype(desc["dtype"]).kind)
+            msg = array_to_units_check(a, b, desc)
+            if msg:
+                nfa += 1
+                afail.append({"stream": "oracle", "case": dict(desc, kind="to_units_array", **{"from": a, "to": b}), "what": msg, "observed": msg})
+    # wrong numbers before wrong result types, integer payloads before the other kinds, small payloads first
+    afail.sort(key=lambda d: (0 if ": element " in d["what"] else 1, "iufcb".index(np.dtype(d["case"]["dtype"]).kind), len(d["case"]["values"]) or 99))
+    corr.failures.extend(afail[:40])
+    ctx.log(f"to_units on array payloads: {corr.streams.get('to_units-arrays', 0)} conversions over {len(descs)} (dtype, shape, layout) payloads "
+            f"in {time.time() - t0:.1f}s; {nfa} failures")
     bad, errors = c01.eval_cases("C17units", REQ, "check_to_units", uterms, 500, "Q * Q * Q")
     corr.errors.extend(f"to_units shard {k}: {e}" for k, e in errors)
     for b in bad[:5]:
@@ -589,6 +646,157 @@ def correspond(ctx):
     corr.exhaustive = False
     corr.notes.append('elements, alias forms, labels, units, missing and return_tuple are enumerated exhaustively; nuclide labels per element, mixed-case spellings and invalid identifiers are sampled')
     return corr
+
+
+# ------------------------------------------------------------------------------------------------
+# Datum.to_units on array payloads (outside the Gallina model: oracle only).  Every numeric dtype kind and width, both byte
+# orders, 0-d .. 2-d, empty, Fortran-ordered, strided, transposed and read-only arrays.
+ARRAY_DTYPES = ["?", "i1", "u1", "i2", "u2", "i4", "u4", "i8", "u8", ">i2", ">i4", ">u8", "f4", ">f4", "f8", ">f8", "c8", "c16", ">c16"]
+ARRAY_LAYOUTS = [("0d", ()), ("C", (1,)), ("C", (4,)), ("C", (2, 3)), ("F", (3, 2)), ("strided", (5,)), ("strided", (2, 2)),
+                 ("transposed", (2, 3)), ("readonly", (3,)), ("C", (0,)), ("C", (0, 3)), ("F", (2, 0))]
+# relative error allowed against the exact rational product: the factor is rounded to the result's precision (float32 results
+# only) and the product is rounded once; int -> float64 conversion of a 64-bit integer is one more rounding.  Each rounding
+# is at most 2^-24 (float32) resp. 2^-53 (float64) relative; the bounds below leave a factor >= 2 of margin.
+ARRAY_TOL = {4: Fraction(1, 2 ** 22), 8: Fraction(1, 2 ** 51)}
+
+
+def array_values(rng, dtype, n):
+    """n Python scalars representable exactly in `dtype` (complex as [re, im]); radii-like numbers, the extremes of the
+    integer types, both signs, zeros; float magnitudes kept far from under/overflow for every factor used"""
+    dt = np.dtype(dtype)
+    k = dt.kind
+    if k == "b":
+        return [int(rng.random() < 0.6) for _ in range(n)]
+    if k in "iu":
+        info = np.iinfo(dt)
+        pool = [31, 76, 152, 203, 1, 0, 120, 7, info.max, info.min, info.max - 1, info.max // 3]
+        pool += [-31, -1, -152] if k == "i" else [2, 99]
+        pool = [v for v in pool if info.min <= v <= info.max]
+        return [pool[(j + rng.randrange(3)) % len(pool)] if j < 4 else rng.choice(pool + [rng.randrange(max(info.min, -10 ** 6), min(info.max, 10 ** 6) + 1)])
+                for j in range(n)]
+
+    def fl():
+        v = rng.choice([0.31, 0.76, 1.52, 2.03, -1.25, 0.0, -0.0, 123456.789, 1.0e-7, rng.uniform(-1e3, 1e3), rng.uniform(-9, 9) * 10.0 ** rng.randrange(-9, 9)])
+        return float(np.dtype(dt.str[1:] if k == "f" else ("f4" if dt.itemsize == 8 else "f8")).type(v))   # exactly representable in the dtype
+    if k == "f":
+        return [fl() for _ in range(n)]
+    return [[fl(), fl()] for _ in range(n)]
+
+
+def build_array(desc):
+    """the array a case describes: dtype string (byte order included), shape, layout, flat values in C order"""
+    dt = np.dtype(desc["dtype"])
+    shape = tuple(desc["shape"])
+    vals = desc["values"]
+    if dt.kind == "c":
+        vals = [complex(re, im) for re, im in vals]
+    base = np.array(vals, dtype=dt).reshape(shape)
+    lay = desc["layout"]
+    if lay == "0d" or lay == "C":
+        arr = base
+    elif lay == "F":
+        arr = np.asfortranarray(base)
+    elif lay == "strided":                       # every other element along the last axis of a wider buffer
+        big = np.zeros(shape[:-1] + (2 * shape[-1],), dtype=dt)
+        big[..., ::2] = base
+        arr = big[..., ::2]
+    elif lay == "transposed":
+        arr = np.ascontiguousarray(base.T).T
+    elif lay == "readonly":
+        arr = base.copy()
+        arr.setflags(write=False)
+    else:
+        raise ValueError(f"unknown layout {lay!r}")
+    assert arr.shape == shape and arr.dtype == dt
+    return arr
+
+
+def array_payloads(rng, dtypes=None):
+    out = []
+    for dtype in (dtypes or ARRAY_DTYPES):
+        for lay, shape in ARRAY_LAYOUTS:
+            n = int(np.prod(shape)) if shape else 1
+            out.append({"dtype": dtype, "shape": list(shape), "layout": lay, "values": array_values(rng, dtype, n)})
+    return out
+
+
+def _items(a):
+    """exact Python scalars of an array / numpy scalar, in C order, complex split into two floats"""
+    a = np.asarray(a)
+    flat = [x.item() for x in a.reshape(-1)] if a.ndim else [a.item()]
+    out = []
+    for v in flat:
+        out.extend([v.real, v.imag] if isinstance(v, complex) else [v])
+    return out
+
+
+def _same_bits(x, y):
+    x, y = np.asarray(x), np.asarray(y)
+    if x.shape != y.shape or x.dtype.kind != y.dtype.kind or x.dtype.itemsize != y.dtype.itemsize:
+        return False
+    nat = x.dtype.newbyteorder("=")
+    return np.ascontiguousarray(x.astype(nat)).tobytes() == np.ascontiguousarray(y.astype(nat)).tobytes()
+
+
+def array_to_units_check(a, b, desc):
+    try:
+        return _array_to_units_check(a, b, desc)
+    except Exception as e:  # noqa: BLE001 - an exception from Datum / to_units is itself the finding
+        return f"Datum construction / to_units raised {type(e).__name__}: {e}"
+
+
+def _array_to_units_check(a, b, desc):
+    """Datum('x', a, <array>).to_units(b) against (1) the exact rational product factor x element, element by element, within
+    the rounding of the result's precision, (2) the result type the payload calls for (integers and booleans are promoted to
+    float64, float32/64 and complex64/128 keep their precision), (3) the identical IEEE product recomputed here, bit for bit;
+    the conversion is repeated (same answer), to_units() in the own unit returns the numbers unchanged, and afterwards the
+    payload / the Datum's data are untouched and share no memory with the results.  Returns None or a description."""
+    from qcelemental import Datum
+    p = build_array(desc)
+    keep = build_array(desc)
+    kept_bytes = np.ascontiguousarray(keep).tobytes()
+    f = factor(a, b)
+    d = Datum("x", a, p)
+    k, size = p.dtype.kind, p.dtype.itemsize
+    want_kind = "c" if k == "c" else "f"
+    want_size = size if k in "fc" else 8
+    comp = want_size // 2 if want_kind == "c" else want_size      # bytes per real component
+    tol = ARRAY_TOL[comp]
+    exact_in = [Fraction(v) for v in _items(keep)]
+    results = []
+    for rep in range(2):
+        r = d.to_units(b)
+        results.append(r)
+        ra = np.asarray(r)
+        if not isinstance(r, (np.ndarray, np.generic)):
+            return f"conversion #{rep + 1}: result is a {type(r).__name__}, not an array"
+        if ra.shape != p.shape:
+            return f"conversion #{rep + 1}: shape {ra.shape}, payload has {p.shape}"
+        got = _items(ra)
+        if not all(math.isfinite(g) for g in got):
+            return f"conversion #{rep + 1}: non-finite result {got[:6]}"
+        for j, (g, x) in enumerate(zip(got, exact_in)):
+            ex = Fraction(f) * x
+            if abs(Fraction(g) - ex) > tol * abs(ex):
+                return (f"conversion #{rep + 1}: element {j} is {g!r}, but factor({a}->{b}) = {f!r} times the payload's {float(x)!r} is "
+                        f"{float(ex)!r} (beyond {float(tol):.1e} relative)")
+        if ra.dtype.kind != want_kind or ra.dtype.itemsize != want_size:
+            return (f"conversion #{rep + 1}: result dtype {ra.dtype}, expected a {'complex' if want_kind == 'c' else 'float'} of {want_size} bytes "
+                    f"for a {p.dtype} payload (values {_items(ra)[:6]})")
+        if not _same_bits(r, f * keep):
+            return f"conversion #{rep + 1}: result {got[:6]} is not the IEEE product factor * data = {_items(f * keep)[:6]}"
+        if a == b and got != [float(v) for v in _items(keep)]:
+            return f"conversion #{rep + 1}: same-unit conversion changed the numbers: {got[:6]}"
+    r0 = d.to_units()
+    if np.shape(r0) != p.shape or _items(r0) != [float(v) for v in _items(keep)]:
+        return f"to_units() in the Datum's own unit changed the numbers: {_items(r0)[:6]} vs {_items(keep)[:6]}"
+    for name, arr in (("the caller's array", p), ("the Datum's data", d.data)):
+        if not isinstance(arr, np.ndarray) or arr.dtype != keep.dtype or arr.shape != keep.shape or np.ascontiguousarray(arr).tobytes() != kept_bytes:
+            return f"after the conversions {name} changed: {arr!r}"
+    for r in results + [r0]:
+        if isinstance(r, np.ndarray) and r.size and (np.shares_memory(r, p) or any(r is q for q in results + [r0] if q is not r)):
+            return "to_units returned memory shared with the payload (later writes would change the Datum)"
+    return None
 
 
 def to_units_repeat(a, b, p):
@@ -644,6 +852,9 @@ def _run_case(rs, case):
     if case.get("kind") == "factor":
         msgs = factor_sanity()
         return {"oracle": msgs[0] if msgs else None, "implementation": msgs}
+    if case.get("kind") == "to_units_array":
+        msg = array_to_units_check(case["from"], case["to"], case)
+        return {"oracle": msg, "implementation": msg}
     if case.get("kind") == "to_units_repeat":
         p = case["payload"]
         if isinstance(p, str):
@@ -726,19 +937,25 @@ LEVEL_TEXT = (
     "every run equal the hand model for all tables, identifiers, fallbacks, return forms, factors; default unit bohr), C17_public_missing_contract "
     "(the contract on the generated entry points), C17_tabulated_value_by_any_name (any name of the element -> the source row's Datum and factor x "
     "value, both sets), C17_untabulated_element_contract (every periodic-table row without entry x alias forms x cases), C17_non_atom_rejected, "
-    "C17_special_labels_are_variants, C17_special_label_wrong_case_rejected. Tied to the implementation by exhaustive differential execution of get() (all elements x alias forms x cases x 5 units x "
+    "C17_special_labels_are_variants, C17_special_label_wrong_case_rejected. Wave 4: C17_generated_init_is_model (the table construction of both "
+    "__init__ methods, TRANSLATED on every run, is lookup-equal to the hand-written tables for ANY source tables and list-equal on the shipped ones; translated "
+    "__init__ + translated get = model), C17_item_assignment_loop (d[k] = v in a loop = last assignment wins, all rows/keys/values), "
+    "C17_every_variant_bounded_by_its_bare_element (every special label E_xxx has a bare entry E with a value >= its own). Tied to the implementation by exhaustive differential execution of get() (all elements x alias forms x cases x 5 units x "
     "missing x return_tuple x both sets, all labels, invalid names), of the constructed dictionaries entry by entry, and of Datum.to_units; the "
     "property oracle (source tables read independently, largest variant recomputed, bit-exact IEEE product) runs on the implementation's answers.")
 LEVEL_NOTE = (
     "Clause map (full version at the top of coq/Props/C17.v): (a) any name -> tabulated value of the element: C17_radius_by_element, "
     "C17_alias_invariant_radius, C17_tabulated_value_by_any_name; (b) special labels / largest variant: C17_special_labels_own_entry, "
-    "C17_bare_element_is_largest_variant, C17_special_labels_are_variants, C17_special_label_wrong_case_rejected; (c) units: "
+    "C17_bare_element_is_largest_variant, C17_every_variant_bounded_by_its_bare_element, C17_special_labels_are_variants, "
+    "C17_special_label_wrong_case_rejected; (c) units: "
     "C17_default_is_tabulated_over_bohr2angstroms, C17_bohr2angstroms_from_codata, C17_native_unit_exact, C17_linear_in_factor, "
     "C17_datum_carries_source_value; (d) missing contract: C17_missing_contract, C17_untabulated_element_contract, C17_non_atom_rejected, "
-    "C17_public_missing_contract, C17_fails_closed; (e) public entry points = model: C17_generated_get_is_model, C17_generated_to_units. ONLY "
-    "correspondence/oracle: array payloads and float rounding of Datum.to_units, absence of state between calls (history streams), pydantic "
+    "C17_public_missing_contract, C17_fails_closed; (e) public entry points = model: C17_generated_get_is_model, C17_generated_to_units, "
+    "C17_generated_init_is_model, C17_item_assignment_loop. OUT OF THE MODEL (oracle only): Datum.to_units on array payloads (every numeric dtype / shape / "
+    "memory layout; exact rational product, result type, bit-exact product, repeatability, no aliasing). ONLY "
+    "correspondence/oracle: float rounding of scalar Datum.to_units, absence of state between calls (history streams), pydantic "
     "construction, unit factors other than Angstrom->Bohr. "
     "Trusted: Coq kernel + vm_compute; the fail-closed translators; the combinator reading of the Python constructs of get/to_units "
-    "(Model/RadiiGlue.v); the hand-written model of __init__ (differentially tested entry by entry); the C01 model it builds on. The unit factor is an input (pint/CODATA conversion is C03's subject): theorems are relative to it and the oracle sanity-checks the "
+    "(Model/RadiiGlue.v, Model/RadiiInit.v); the C01 model it builds on; the hand-written tables of __init__ are proved equal to the translated construction. The unit factor is an input (pint/CODATA conversion is C03's subject): theorems are relative to it and the oracle sanity-checks the "
     "five factors used. Floating point: the model is exact; implementation floats are compared within 2^-51 relative and bit-exactly in the Python "
     "oracle. Datum validation (pydantic) and array payloads are covered by the oracle only. No axioms (all theorems closed under the global context).")
